@@ -77,7 +77,18 @@ def name_ws_sig(inp, out, closers):
     (TexExpr.__init__ strips the name): does removing exactly that whitespace explain the difference?
     Concrete mode only (runs inside detail printers)."""
     import re
-    norm = re.sub(r'(\\begin[ \t]*\n?[ \t]*\{)([^{}]*)(\}|$)', lambda m: m.group(1) + m.group(2).strip() + m.group(3), inp)
+    names = set()
+    try:
+        soup = TexSoup(inp, tolerance=1 if closers else 0)
+        for n in soup.descendants:
+            if isinstance(n, TexNode) and isinstance(n.expr, TexNamedEnv):
+                names.add(str(n.expr.name))
+    except Exception:
+        pass
+    names.add('')
+    norm = inp
+    for nm in sorted(names, key=len, reverse=True):
+        norm = re.sub(r'(\\begin[ \t]*\n?[ \t]*\{)\s*' + re.escape(nm) + r'\s*(\}|$)', lambda m: m.group(1) + nm + m.group(2), norm)
     if norm != inp and align_cond(norm, out, closers):
         return 'env-name-whitespace'
     return 'other'
@@ -170,6 +181,12 @@ def pieces(n, out):
         for b in n['body']:
             pieces(b, out)
         out.append(('\\end{' + n['name'] + '}', 'end'))
+    elif k == 'tdef':
+        out.append(('\\def\\' + n['name'], None))
+        out.append(('{', None))
+        for b in n['body']:
+            pieces(b, out)
+        out.append(('}', 'brace'))
     elif k == 'def':
         out.append((K.ser(n), None))
     else:
